@@ -122,3 +122,43 @@ mx('mix_for_over_param_fn',
              [('for', var('n%'), var('lim%'), I(1), U('-', I(1)),
                [L(var('t&'), B('+', var('t&'), var('n%')))]),
               ('setret', B('+', var('t&'), var('n%')))])])
+
+# (i) PRINT pipeline: items computed in different ways (literal, variable,
+#     expression, builtin call, user FUNCTION call -- also one that prints
+#     itself) in every position, with ; and , separators: the layout must
+#     depend only on the values and separators (C17)
+PSUBS = [Sub('sum%', 'function', [('x%', None), ('y%', None)],
+             [('setret', B('+', B('MOD', var('x%'), I(100)),
+                           B('MOD', var('y%'), I(100))))]),
+         Sub('name$', 'function', [('x%', None)],
+             [('setret', B('+', S('n'), F('CHR$', B('+', I(65),
+                                                    B('MOD', F('ABS', B('MOD', var('x%'), I(20))), I(20))))))])]
+
+
+def pr(cid, body, **kw):
+    kw.setdefault('family', 'print')
+    kw.setdefault('budget', 1500)
+    kw.setdefault('pre', '-999 <= x0 <= 999 and -999 <= x1 <= 999')
+    return mk(cid, ['a%', 'b%'], body, subs=PSUBS, tags=('mix', 'print'),
+              **kw)
+
+
+CALL = ('call', 'sum%', [var('a%'), var('b%')])
+NAME = ('call', 'name$', [var('a%')])
+pr('pr_fn_after_semicolon_then_comma',
+   [P(S('Total:'), ';', CALL, ',', S('ok')),
+    P(S('Total:'), ';', B('+', var('a%'), I(0)), ',', S('ok')),
+    P(var('a%'), ';', CALL, ',', CALL, ',', S('z')),
+    P(S('end'))])
+pr('pr_fn_positions',
+   [P(CALL, ',', S('first')),
+    P(S('x'), ',', CALL, ';', S('mid'), ',', var('b%')),
+    P(S('abcdefghijklmnop'), ';', NAME, ',', S('t'), ','),
+    P(NAME, ';', NAME, ',', CALL, ';'),
+    P(S('|'))])
+pr('pr_builtin_items',
+   [P(F('STR$', var('a%')), ';', F('LEN', F('STR$', var('b%'))), ',',
+      F('ABS', var('a%')), ',', F('SPACE$', I(3)), ';', S('|')),
+    P(F('LEFT$', S('hello world, this is long'), I(15)), ',', CALL, ',',
+      S('q')),
+    P(S('end'))])
